@@ -340,3 +340,43 @@ Proof.
   intros rks blk. unfold encrypt_with, wfbs. induction (encrypt2 rks (map b2_of_N blk)) as [|b l IH]; cbn [map forallb]; [reflexivity|].
   now rewrite b2_to_N_wf, IH.
 Qed.
+
+(* ---- decryption also maps 16 bytes to 16 bytes ---------------------------------------------------------- *)
+
+Lemma imix_columns_length st : length st = 16%nat -> length (imix_columns st) = 16%nat.
+Proof. intros H. destruct16 st H. reflexivity. Qed.
+Lemma ishift_rows_length st : length st = 16%nat -> length (ishift_rows st) = 16%nat.
+Proof. intros H. destruct16 st H. reflexivity. Qed.
+
+Lemma dec_round_length st rk : len16 st -> len16 rk -> len16 (dec_round st rk).
+Proof.
+  unfold len16, dec_round, isub_bytes. intros Hs Hk. rewrite map_length.
+  apply ishift_rows_length, imix_columns_length. now rewrite xor_block_length, Hs, Hk.
+Qed.
+
+Lemma dec_rounds_length mid : Forall len16 mid -> forall st, len16 st -> len16 (fold_left dec_round mid st).
+Proof.
+  induction 1 as [|k mid Hk Hm IH]; intros st Hs; cbn [fold_left]; [assumption|].
+  apply IH. now apply dec_round_length.
+Qed.
+
+Lemma decrypt2_length k0 rest blk : rest <> [] -> len16 k0 -> Forall len16 rest -> len16 blk ->
+  len16 (decrypt2 (k0 :: rest) blk).
+Proof.
+  intros Hne Hk0 Hr Hb. unfold decrypt2.
+  assert (Hl : len16 (last rest [])) by (now apply forall_last).
+  assert (Hm : Forall len16 (rev (removelast rest))).
+  { apply Forall_rev. now apply forall_removelast. }
+  assert (H0 : len16 (isub_bytes (ishift_rows (xor_block blk (last rest []))))).
+  { unfold len16, isub_bytes in *. rewrite map_length. apply ishift_rows_length. now rewrite xor_block_length, Hb, Hl. }
+  pose proof (dec_rounds_length _ Hm _ H0) as Hs. unfold len16 in *. now rewrite xor_block_length, Hs, Hk0.
+Qed.
+
+Theorem aes_dec_length : forall key blk : bytes,
+  (length key = 16 \/ length key = 32)%nat -> length blk = 16%nat ->
+  length (decrypt_with (round_keys key) blk) = 16%nat.
+Proof.
+  intros key blk Hk Hb. destruct (round_keys_good key Hk) as (k0 & rest & -> & Hne & H0 & Hr).
+  unfold decrypt_with. rewrite map_length. apply decrypt2_length; try assumption.
+  unfold len16. now rewrite map_length.
+Qed.
